@@ -21,6 +21,10 @@ type Variant struct {
 	Interrupted bool
 	// AliasStore (with Resumed): the session stores hand out their own slices (no defensive copies).
 	AliasStore bool
+	// Rewrite, when set, edits every datagram at emission (an on-path re-framer that turns this library's habits
+	// into what another conforming implementation would put on the wire). Installed by Setup for the connection
+	// under test.
+	Rewrite func(d *world.Datagram)
 }
 
 var pskKey = []byte{0xAB, 0xC1, 0x23, 0x45, 0x67}
@@ -56,6 +60,10 @@ func Variants13() []Variant {
 // VariantsCombined are handshake variants that combine two non-default dimensions (used by C02 only).
 func VariantsCombined() []Variant {
 	return []Variant{
+		// the peer is a conforming server that is not this library: HelloVerifyRequest.server_version = DTLS 1.0
+		{Name: "12-hvr-version10", Rewrite: HVRVersion10},
+		{Name: "12-psk-hvr-version10-mtu100", Rewrite: HVRVersion10, C: world.Cfg{MTU: 100, Cred: "psk", PSK: pskKey, Suites: []dtls.CipherSuiteID{dtls.TLS_PSK_WITH_AES_128_GCM_SHA256}},
+			S: world.Cfg{MTU: 100, Cred: "psk", PSK: pskKey, Suites: []dtls.CipherSuiteID{dtls.TLS_PSK_WITH_AES_128_GCM_SHA256}}},
 		{Name: "12-mtu100-store", C: world.Cfg{MTU: 100, Store: world.NewMapStore()}, S: world.Cfg{MTU: 100, Store: world.NewMapStore()}},
 		{Name: "12-mtu100-resumed", Resumed: true, C: world.Cfg{MTU: 100}, S: world.Cfg{MTU: 100}},
 		{Name: "12-mtu100-clientauth", C: world.Cfg{MTU: 100, Cred: "ecdsa"}, S: world.Cfg{MTU: 100, ClientAuth: dtls.RequireAndVerifyClientCert}},
@@ -88,6 +96,24 @@ func findVariant(name string) (Variant, bool) {
 // Setup builds the pair for a variant inside world w. For resumed variants it first completes a
 // clean full handshake over fresh shared stores and closes that connection.
 func (v Variant) Setup(w *world.World, p *world.PKI) (*world.Pair, error) {
+	pr, err := v.setup(w, p)
+	return pr, err
+}
+
+// HVRVersion10 rewrites HelloVerifyRequest.server_version to DTLS 1.0, which is what RFC 6347 section 4.2.1 says a
+// DTLS 1.2 server SHOULD send (the field must not be used for version negotiation; the message is outside the
+// Finished transcript).
+func HVRVersion10(d *world.Datagram) {
+	b := d.Data
+	if d.Src == world.ServerAddr && len(b) >= 13+12+2 && b[0] == 22 && b[3] == 0 && b[4] == 0 && b[13] == 3 {
+		b[13+12], b[13+12+1] = 0xfe, 0xff
+	}
+}
+
+func (v Variant) setup(w *world.World, p *world.PKI) (*world.Pair, error) {
+	if v.Rewrite != nil {
+		w.SetOnEmit(v.Rewrite)
+	}
 	c, s := v.C, v.S
 	if v.Resumed {
 		type lenStore interface {
